@@ -33,6 +33,23 @@ CONTAINERS = ('diffx', '.change', '..file')
 NAMES = ('diffx', 'preamble', 'meta', 'change', 'file', 'diff')
 
 
+def illegal_step(ids):
+    """Index of the first section that may not stand where it does (the
+    first must be diffx, every later one a legal successor), else None."""
+    prev = None
+
+    for i, sid in enumerate(ids):
+        if prev is None:
+            if sid != 'diffx':
+                return i
+        elif sid not in TABLE.get(prev, ()):
+            return i
+
+        prev = sid
+
+    return None
+
+
 def kind_of(section_id):
     """'container', 'preamble', 'meta' or 'diff'."""
     name = section_id.lstrip('.')
